@@ -49,6 +49,22 @@ def check(prog, run):
         events_to_obligations(run, prog, "O-hom", name, seen=seen)
     if not any(o.rule == "O-hom" for o in run.obs):
         run.ob("O-hom", "pyoma2.functions.gen", "all-operations", True, "no event")
+    # the MAC band filter of the EFDD / FSDD bell (fdd.SDOF_bellandMS) decides `MAC(reference shape, singular vector) > MAClim`: the left
+    # side must be free of the scale of the reference shape (a MAC), whoever computes it - gen.MAC or an inlined batch form
+    from ..hd import SEC, HZ
+    from ..absint import Cst, SCAL
+    try:
+        bell = I.fn("functions.fdd.SDOF_bellandMS")
+    except Exception:
+        bell = None
+    if bell is not None:
+        for meth in ("FSDD", "EFDD"):
+            CTX.events.clear()
+            I.call(bell, [D(3, g=2, s=1), SEC, HZ, D(1, a=1), Cst(meth), Cst(1), SCAL, HZ])
+            before = len(run.obs)
+            events_to_obligations(run, prog, "O-hom", f"SDOF_bellandMS(phi_ref ~ a)[method={meth}]", seen=seen)
+            if len(run.obs) == before:
+                run.ob("O-hom", bell.qual, "MAC filter of the band is scale-free in the reference shape", True, f"no scale-dependent decision (method={meth})", config=meth)
     run.trusted |= set(CTX.used)
     for name in FUNCS:
         domain(prog, run, prog.func("functions.gen." + name))
